@@ -178,3 +178,48 @@ Fixpoint sg_trace (times values : list R) (ops : list sig_op) : list (list R) :=
   | [] => []
   | op :: rest => let v' := sg_step times values op in v' :: sg_trace times v' rest
   end.
+
+(* ---------------------------------------------------------------- multi-term FunctionSignals (from __add__)
+   A FunctionSignal is a list of groups (function, factor, filters); `a + b` concatenates the groups of a and b (a's first);
+   filter_frequencies appends the filter to EVERY group, `*=`/`/=` scale every factor;
+   values = zeros + sum over groups of  _apply_filters(func_i(times)*factor_i, filters_i)  (no filtering for an empty chain). *)
+Record fs_group := { g_vals : list R; g_factor : R; g_filters : list ((R -> C) * bool) }.
+Definition mg_state := list fs_group.
+
+Definition group_read (times : list R) (gr : fs_group) : list R :=
+  fs_read times (g_vals gr) {| fs_factor := g_factor gr; fs_filters := g_filters gr |}.
+
+Definition mg_read (times : list R) (st : mg_state) : list R :=
+  fold_left (fun acc gr => map2 Rplus acc (group_read times gr)) st (zeros (length times)).
+
+Definition mg_filter (g : R -> C) (fr : bool) (st : mg_state) : mg_state :=
+  map (fun gr => {| g_vals := g_vals gr; g_factor := g_factor gr; g_filters := g_filters gr ++ [(g, fr)] |}) st.
+Definition mg_scale (c : R) (st : mg_state) : mg_state :=
+  map (fun gr => {| g_vals := g_vals gr; g_factor := (g_factor gr * c)%R; g_filters := g_filters gr |}) st.
+Definition mg_div (c : R) (st : mg_state) : mg_state :=
+  map (fun gr => {| g_vals := g_vals gr; g_factor := (g_factor gr / c)%R; g_filters := g_filters gr |}) st.
+
+(* a stack machine over signal objects: push a new one-term signal, add the two topmost (second + top), filter / scale the
+   topmost, read the topmost *)
+Inductive mg_op : Type :=
+  | MPush (vals : list R)
+  | MAdd
+  | MFilter (g : R -> C) (force_real : bool)
+  | MScale (c : R)
+  | MDiv (c : R)
+  | MRead.
+
+Fixpoint mg_run (times : list R) (stack : list mg_state) (ops : list mg_op) : list (list R) :=
+  match ops with
+  | [] => []
+  | op :: rest =>
+    match op, stack with
+    | MPush v, _ => mg_run times ([{| g_vals := v; g_factor := 1; g_filters := [] |}] :: stack) rest
+    | MAdd, b :: a :: s => mg_run times ((a ++ b) :: s) rest
+    | MFilter g fr, a :: s => mg_run times (mg_filter g fr a :: s) rest
+    | MScale c, a :: s => mg_run times (mg_scale c a :: s) rest
+    | MDiv c, a :: s => mg_run times (mg_div c a :: s) rest
+    | MRead, a :: s => mg_read times a :: mg_run times stack rest
+    | _, _ => mg_run times stack rest
+    end
+  end.
